@@ -33,6 +33,7 @@ from ..x_flow import expand_locals
 from ..x_peval import STOP, UNK, make_resolver, pure_self_methods, peval, pfold, prep, partition, predicates_on, try_fold
 
 from ..x_http import norm_func
+from ..x_objalias import subst_object_aliases
 
 # private helpers that the rules model by name (sanitisers / summarised effects) and therefore must stay calls
 KEEP_CALLS = {"_format_chunk", "_convert_header_value", "_clear_representation_headers", "_can_keep_alive", "_compressible_type",
@@ -43,11 +44,28 @@ def F(ck, relpath, qualname):
     """The anchored function with its private same-file helpers inlined (function splitting is followed, depth 3)."""
     fi = ck.func(relpath, qualname)
     try:
-        return norm_func(ck.repo, fi, depth=3, no_inline=KEEP_CALLS)
+        return subst_object_aliases(norm_func(ck.repo, fi, depth=3, no_inline=KEEP_CALLS))
     except AnalysisError:
         raise
     except Exception as e:  # the normaliser must never turn into a verdict
         raise AnalysisError("cannot normalise %s: %r" % (qualname, e))
+
+
+def fully_inlined(fi, keep=()):
+    """No call of a private method of ``self`` is left in the normalised function (other than the ones the rules
+    model by name): only then may the *absence* of an effect be reported as a violation."""
+    for c in q.calls(fi.node):
+        if isinstance(c.func, ast.Attribute) and q.dotted(c.func.value) in ("self", "cls") and c.func.attr.startswith("_") and not c.func.attr.startswith("__") and c.func.attr not in KEEP_CALLS and c.func.attr not in keep:
+            return False
+    return True
+
+
+def absent(fi, what, keep=()):
+    """Verdict for 'the required effect was not found': False (a violation) only when the function was fully
+    recognised; otherwise the analysis fails closed."""
+    if not fully_inlined(fi, keep):
+        raise AnalysisError("%s: %s not found, and private helpers remain that could not be inlined" % (fi.qualname, what))
+    return False
 
 
 TECHNIQUE = "partial evaluation of the CFG over the partitioned (version, method, status, Content-Length, disconnect) space + guard-dominance/typestate on the length guard"
@@ -192,8 +210,8 @@ def _keepalive_fact(text: str, self_hdrs="self._request_headers") -> bool:
     return False
 
 
-def keepalive_precondition(ck) -> bool:
-    """For an HTTP/1.0 request the connection flag can only be False when the
+def keepalive_precondition(ck, version="HTTP/1.0") -> bool:
+    """For a request of the given (non-1.1) version the connection flag can only be False when the
     request asked for keep-alive: every return of _can_keep_alive reachable with
     version == HTTP/1.0 is ``False`` or ``<Connection header> == 'keep-alive'``,
     and _read_message sets the flag to ``not _can_keep_alive(..)``."""
@@ -213,7 +231,7 @@ def keepalive_precondition(ck) -> bool:
             ok_store = True
     if not ok_store:
         return False
-    states = peval(cka.cfg, {sl + ".version": "HTTP/1.0"})
+    states = peval(cka.cfg, {sl + ".version": version})
     n_ret = 0
     for node in cka.cfg.stmt_nodes(lambda n: n.kind == "stmt" and isinstance(n.ast, ast.Return)):
         if not states.get(node.id):
@@ -226,6 +244,41 @@ def keepalive_precondition(ck) -> bool:
             continue
         return False
     return n_ret >= 1
+
+
+def request_versions(ck, fi):
+    """Representatives of the HTTP-version strings a request line can carry: every version literal the framing code
+    (write_headers, _can_keep_alive and the helpers they call) compares with, plus versions it never mentions.
+    Each representative is checked against the automaton of _ABNF.HTTP_version, so that only versions the parser
+    really admits are analysed — and all of them are covered, not just 1.0 and 1.1."""
+    from ..rx import Rx, eval_abnf
+
+    lits = set()
+    seen = set()
+    work = [fi]
+    if ck.repo.has_func(H1, CONN + "._can_keep_alive"):
+        work.append(ck.repo.func(H1, CONN + "._can_keep_alive"))
+    while work:
+        f = work.pop()
+        if f.qualname in seen:
+            continue
+        seen.add(f.qualname)
+        lits |= {v for v in q.literal_strs(f.node) if v.startswith("HTTP/")}
+        for c in q.calls(f.node):
+            if isinstance(c.func, ast.Attribute) and q.dotted(c.func.value) == "self" and ck.repo.has_func(H1, "%s.%s" % (CONN, c.func.attr)) and len(seen) < 12:
+                work.append(ck.repo.func(H1, "%s.%s" % (CONN, c.func.attr)))
+    env = eval_abnf(ck.repo)
+    if "HTTP_version" not in env:
+        raise AnalysisError("_ABNF.HTTP_version not found")
+    lang = Rx.from_pattern(env["HTTP_version"])
+    cands = sorted(lits | {"HTTP/1.0", "HTTP/1.1"})
+    for extra in ("HTTP/1.2", "HTTP/0.9", "HTTP/2.0"):
+        if extra not in cands:
+            cands.append(extra)
+    out = [v for v in cands if lang.accepts(v)]
+    if "HTTP/1.0" not in out or "HTTP/1.1" not in out:
+        raise AnalysisError("the request-line grammar no longer admits HTTP/1.0 and HTTP/1.1")
+    return out
 
 
 def check_write_headers(ck):
@@ -282,14 +335,17 @@ def check_write_headers(ck):
                     env["@set:" + str(t.slice.value)] = val.value if isinstance(val, ast.Constant) else "?"
         return None
 
-    use_pre = keepalive_precondition(ck)
-    if use_pre:
-        ck.assume("HTTP/1.0 and _disconnect_on_finish False on entry to write_headers implies the request carried Connection: keep-alive (re-derived from _can_keep_alive/_read_message on this tree)")
-    else:
-        ck.note("keep-alive precondition could not be re-derived from _can_keep_alive; all valuations are treated as feasible")
+    versions = request_versions(ck, fi)
+    ck.note("request versions analysed (every string the request-line grammar admits is equivalent to one of them for the comparisons the code makes): %s" % ", ".join(versions))
+    pre = {v: keepalive_precondition(ck, v) for v in versions}
+    if any(pre.values()):
+        ck.assume("for %s: _disconnect_on_finish False on entry to write_headers implies the request carried Connection: keep-alive (re-derived from _can_keep_alive/_read_message on this tree)" % ", ".join(v for v in versions if pre[v]))
+    if not all(pre[v] for v in versions if v != "HTTP/1.1"):
+        ck.note("keep-alive precondition could not be re-derived from _can_keep_alive for %s; those valuations are all treated as feasible" % ", ".join(v for v in versions if not pre[v] and v != "HTTP/1.1"))
 
     n_val = 0
-    for version in ("HTTP/1.0", "HTTP/1.1"):
+    for version in versions:
+        use_pre = pre[version] and version != "HTTP/1.1"
         for method in ("GET", "HEAD", "POST"):
             for cls in classes:
                 code = cls[0]
@@ -308,8 +364,8 @@ def check_write_headers(ck):
                             "@ecr": "unset",
                             "@resolve": resolver,
                         }
-                        def on_edge(n, kind, env, version=version, dof_in=dof_in):
-                            if use_pre and kind == "false" and version == "HTTP/1.0" and not dof_in and _keepalive_fact(q.unparse(n.ast)):
+                        def on_edge(n, kind, env, version=version, dof_in=dof_in, use_pre=use_pre):
+                            if use_pre and kind == "false" and not dof_in and _keepalive_fact(q.unparse(n.ast)):
                                 return STOP  # infeasible: a 1.0 request without keep-alive arrives with the flag set
                             return None
 
@@ -811,7 +867,13 @@ def check_handler_finish(ck):
         if q.is_call(c, "self.set_header") and _const_arg(c, 0) == "Content-Length":
             n_cl += 1
             v = q.arg(c, 1, "value")
-            ck.ob("C02.finish-content-length", fi, c, v is not None and _buffer_length_expr(fi, v), "the computed Content-Length is the total byte length of the unflushed buffer (what a GET would carry)")
+            if v is None:
+                raise AnalysisError("RequestHandler.finish: Content-Length set without a value argument")
+            # evaluate the expression on a concrete buffer: any formulation of "total byte length" gives 5 here
+            got = try_fold(expand_locals(fi, v), {WB: (b"ab", b"cde")})
+            if got is UNK:
+                raise AnalysisError("RequestHandler.finish: the Content-Length expression %s cannot be evaluated on a sample buffer" % q.unparse(v)[:60])
+            ck.ob("C02.finish-content-length", fi, c, got in (5, "5", b"5"), "the computed Content-Length is the total byte length of the unflushed buffer (what a GET would carry); on the sample buffer (b'ab', b'cde') it evaluates to %r" % (got,))
     ck.floor("C02.finish-content-length", n_cl, 1, "Content-Length computations in RequestHandler.finish")
     # ordering: flush (which emits headers+body) precedes connection.finish()
     cf_ids = {n.id for n, _c in method_calls(fi, "finish", "self.request.connection")}
@@ -830,7 +892,12 @@ def check_finish_order(ck):
     chunk = ps[1]
     cfg = fi.cfg
     writes = {n.id for n, c in call_sites(fi, "self.write") if c.args and q.dotted(c.args[0]) == chunk}
-    ck.ob("C02.finish-order", fi, fi.node, len(writes) >= 1, "finish(chunk) hands the chunk to write()", construct="finish(chunk) never buffers the chunk")
+    if not writes:
+        used = [x for x in q.walk_body(fi.node) if isinstance(x, ast.Name) and x.id == chunk and isinstance(x.ctx, ast.Load)]
+        in_tests = [x for t in fi.cfg.stmt_nodes(lambda n: n.kind == "test") for x in ast.walk(t.ast) if isinstance(x, ast.Name) and x.id == chunk]
+        if len(used) > len(in_tests):
+            raise AnalysisError("RequestHandler.finish uses its chunk in a way other than self.write(chunk): unknown idiom")
+        ck.ob("C02.finish-order", fi, fi.node, absent(fi, "self.write(chunk)"), "finish(chunk) hands the chunk to write()", construct="finish(chunk) never buffers the chunk")
     none_fact = "%s is None" % chunk
     users = []
     for n, c in cfg.find(lambda x: isinstance(x, ast.Call)):
@@ -906,7 +973,7 @@ def check_buffer_consumed(ck):
     for node in cfg.stmt_nodes(lambda m: m.kind in ("stmt", "test", "for") and any(isinstance(x, ast.Attribute) and isinstance(x.ctx, ast.Load) and q.dotted(x) == WB for r in ([m.ast] if m.kind != "for" else [m.ast.iter]) for x in q.walk_local(r))):
         k += 1
         ck.ob("C02.buffer-consumed", fi, node.ast if node.kind != "for" else node.ast.iter, ("@reset", True) not in facts[node.id], "the buffer is read before it is emptied")
-    ck.ob("C02.buffer-consumed", fi, fi.node, k >= 1, "flush reads the write buffer", construct="flush does not read the write buffer")
+    ck.ob("C02.buffer-consumed", fi, fi.node, k >= 1 or absent(fi, "a read of the write buffer"), "flush reads the write buffer", construct="flush does not read the write buffer")
 
 
 def check_error_reset(ck):
@@ -934,7 +1001,7 @@ def check_error_reset(ck):
         ck.ob("C02.error-reset", se, b.ast, ("@cleared", True) in f2[b.id], "send_error discards the prepared response (clear()) before it builds the error response")
     # the handler starts from the same clean state: __init__ goes through clear()
     init = F(ck, WEB, RH + ".__init__")
-    ck.ob("C02.error-reset", init, init.node, len(call_sites(init, "self.clear")) >= 1 or bool(q.stores_to(init.node, WB)), "a new handler starts with an empty write buffer", construct="__init__ does not initialise the response state")
+    ck.ob("C02.error-reset", init, init.node, len(call_sites(init, "self.clear")) >= 1 or bool(q.stores_to(init.node, WB)) or absent(init, "initialisation of the write buffer"), "a new handler starts with an empty write buffer", construct="__init__ does not initialise the response state")
 
 
 # ---------------------------------------------------------------------------
@@ -1060,6 +1127,7 @@ MUTANTS = [
     ("204 dropped from the zero-length set (F3 re-introduced)", _in(H1, CONN + ".write_headers", lambda root: _zero_set_edit(root, lambda t: replace_expr(lambda n: isinstance(n, ast.Tuple) and 204 in q.literal_ints(n), lambda n: ast.Tuple(elts=[ast.Constant(value=304)], ctx=ast.Load()))(t))), "C02.zero-length"),
     ("1xx dropped from the zero-length set (F3 re-introduced)", _in(H1, CONN + ".write_headers", lambda root: _zero_set_edit(root, lambda t: replace_expr(lambda n: isinstance(n, ast.Compare) and len(n.ops) == 2, lambda n: ast.Constant(value=False))(t))), "C02.zero-length"),
     ("undelimited body keeps the connection (F4 re-introduced)", _in(H1, CONN + ".write_headers", remove_stmts(lambda st: isinstance(st, ast.If) and len(st.body) == 1 and isinstance(st.body[0], ast.Assign) and DOF in q.assigned_paths(st.body[0]))), "C02.framing"),
+    ("undelimited-body close decided by 'HTTP/1.0' instead of 'not chunking' (seeded C02-adv4: HTTP/1.2+ left open)", _in(H1, CONN + ".write_headers", lambda root: _close_only_for_10(root)), "C02.framing"),
     ("204/304 no longer excluded from chunking", _in(H1, CONN + ".write_headers", _server_chunking(replace_expr(lambda n: _is_cmp(n, ast.NotIn, "304"), TRUE))), "C02.bodiless-not-chunked"),
     ("HEAD no longer excluded from chunking", _in(H1, CONN + ".write_headers", _server_chunking(replace_expr(lambda n: _is_cmp(n, ast.NotEq, "HEAD"), TRUE))), "C02.bodiless-not-chunked"),
     ("chunking although Content-Length is present", _in(H1, CONN + ".write_headers", _server_chunking(replace_expr(lambda n: _is_cmp(n, ast.NotIn, "Content-Length"), TRUE))), "C02.chunking-consistent"),
@@ -1153,4 +1221,14 @@ def _swap_join_reset(root):
         if isinstance(st, ast.Assign) and "join(self._write_buffer)" in _u(st) and isinstance(body[i + 1], ast.Assign) and WB in q.assigned_paths(body[i + 1]):
             body[i], body[i + 1] = body[i + 1], body[i]
             return True
+    return False
+
+
+def _close_only_for_10(root):
+    for st in ast.walk(root):
+        if isinstance(st, ast.If) and len(st.body) == 1 and isinstance(st.body[0], ast.Assign) and DOF in q.assigned_paths(st.body[0]) and isinstance(st.test, ast.BoolOp):
+            for i, v in enumerate(st.test.values):
+                if isinstance(v, ast.UnaryOp) and isinstance(v.op, ast.Not) and q.dotted(v.operand) == CHUNKING:
+                    st.test.values[i] = parse_expr("self._request_start_line.version == 'HTTP/1.0'")
+                    return True
     return False
